@@ -365,7 +365,34 @@ func (ex *Exec) convert(v Value, from, to types.Type) Value {
 			return v
 		}
 	}
-	if _, ok := tu.(*types.Pointer); ok {
+	if tp, ok := tu.(*types.Pointer); ok {
+		// unsafe.Pointer(&structValue) -> *scalar: the address of a struct is the address of its first
+		// field of non-zero size (used by harnesses to reach a counter whether it is a plain uint64 or a
+		// typed atomic)
+		if p, isPtr := v.(Pointer); isPtr && p.C != nil {
+			if _, scalar := tp.Elem().Underlying().(*types.Basic); scalar {
+				c := p.C
+				for {
+					so, isStruct := c.V.(*StructObj)
+					if !isStruct {
+						break
+					}
+					var next *Cell
+					for _, f := range so.F {
+						if inner, empty := f.V.(*StructObj); empty && len(inner.F) == 0 {
+							continue
+						}
+						next = f
+						break
+					}
+					if next == nil {
+						break
+					}
+					c = next
+				}
+				return Pointer{C: c}
+			}
+		}
 		return v
 	}
 	if _, ok := tu.(*types.Basic); ok && tu.(*types.Basic).Kind() == types.UnsafePointer {
